@@ -299,11 +299,11 @@ func init() {
 			return a.N >= 3
 		}
 		conn := func(in Input, a *Analysis) bool { return a.NComp == 1 }
-		g := gridSpec{P1: allP1, P2: allP2, P4: []int{1, 2}, P5: []int{2}, SZ: []int{0, 1, 2}, SP: spLSpos, Virt: []bool{true}}.list()
+		g := gridSpec{P1: allP1, P2: allP2, P3: []int{0, 1}, P4: []int{1, 2}, P5: []int{1}, SZ: []int{0, 1, 2}, SP: spLSpos, Virt: []bool{true}}.list()
 		d := tierPick(tier, 5, 6)
 		ps := []*Pass{
 			{Name: "G-conn", Space: spaceG(1, d, 0, conn), Eval: stdEval("C16", staticGrid(g), or),
-				Bound: fmt.Sprintf("all connected edge lists with <=%d edges x {greedy,dfs} x {ns,lp} x {valign,packright} x {zero,fixed,per-node} sizes x NodeSpacing {4,0}, helper nodes made visible", d)},
+				Bound: fmt.Sprintf("all connected edge lists with <=%d edges x {greedy,dfs} x {ns,lp} x {valign,packright} x {weighted-median ordering, no ordering} x {zero,fixed,per-node} sizes x NodeSpacing {4,0}, helper nodes made visible", d)},
 			{Name: "rotations", Space: spaceG(3, 4, 0, conn), Eval: stdEval("C16", func(in Input, a *Analysis) []Cfg {
 				var out []Cfg
 				for rt := 1; rt < len(tabW); rt++ {
